@@ -27,7 +27,8 @@ THEOREMS = ['C11_term_preserves_subspace', 'C11_trajectory_in_subspace', 'C11_le
             'C11_sw_mean_tendencies_vanish', 'C11_sw_explicit_top_zero', 'C11_sw_explicit_into_Supp',
             'C11_pe_explicit_top_zero', 'C11_pe_explicit_into_Supp', 'C11_pe_mean_tendencies_vanish',
             'C11_pe_implicit_preserve_Supp', 'C11_primeq_trajectory_in_subspace',
-            'C11_primeq_leapfrog_trajectory_in_subspace', 'C11_primeq_means_conserved', 'C11_pe_hyps_satisfiable']
+            'C11_primeq_leapfrog_trajectory_in_subspace', 'C11_primeq_means_conserved', 'C11_pe_hyps_satisfiable',
+            'C11_fix_time_is_source']
 LEVEL = 'proof'
 LEVEL_TEXT = ('machine-checked theorems (Coq) for every field, every vector space, every step term built from '
               'u, +, scalar *, F, G, G_inv (all integrators of time_integration.py are encoded as such terms, the '
